@@ -21,8 +21,9 @@ Arguments N.ltb : simpl never.
 Arguments N.leb : simpl never.
 Arguments N.eqb : simpl never.
 
-(* a row as the encoder builds it: 256 entries, each a u16 (any bound below 2^32 will do) *)
-Definition rowv (fs : list N) : Prop := length fs = 256%nat /\ Forall (fun g => g < 4294967296) fs.
+(* a row as the encoder builds it: 256 entries adding up to at most 4096 (what the reader's
+   validation of each context's table demands) *)
+Definition rowv (fs : list N) : Prop := length fs = 256%nat /\ sumN fs <= 4096.
 
 Definition rf1_mid (fu : nat) (bs1 : list N) (last : N) (F1 : list (list N))
   : option (list (list N) * list N) :=
@@ -99,7 +100,9 @@ Lemma row_roundtrip fs rest :
   rowv fs -> in_alphabet fs = true ->
   spec_read_frequencies0 (write_frequencies fs ++ rest) = Some (fs, rest).
 Proof.
-  intros [Hl Hb] Ha. apply freq_table_roundtrip; [exact Hl|exact Hb|apply in_alphabet_true; exact Ha].
+  intros [Hl Hs] Ha. apply freq_table_roundtrip; [exact Hl| |apply in_alphabet_true; exact Ha|exact Hs].
+  rewrite Forall_forall. intros g Hg. apply In_nth with (d := 0) in Hg.
+  destruct Hg as [i [_ Hi]]. pose proof (nth_le_sumN fs i). lia.
 Qed.
 
 (* ---------- the two synchronisation points ---------- *)
